@@ -85,10 +85,11 @@ func (g *GItem) VarNames() []string {
 }
 
 type Gen struct {
-	r       *rand.Rand
-	varSeq  int
-	MaxKids int
-	MaxVals int
+	r        *rand.Rand
+	varSeq   int
+	MaxKids  int
+	MaxVals  int
+	NoDigits bool // ASCII literals without digits
 }
 
 func NewGen(seed int64) *Gen { return &Gen{r: rand.New(rand.NewSource(seed)), MaxKids: 4, MaxVals: 5} }
@@ -204,6 +205,18 @@ func (g *Gen) floatVal(size int) float64 {
 func (g *Gen) asciiStr(maxLen int) string {
 	n := g.pick(maxLen + 1)
 	b := make([]byte, n)
+	if g.NoDigits {
+		// (C16 looks for variable names among the words of the printed form; all generated names end in a digit)
+		for i := range b {
+			for {
+				b[i] = byte(g.pick(128))
+				if b[i] < '0' || b[i] > '9' {
+					break
+				}
+			}
+		}
+		return string(b)
+	}
 	special := []byte{0, 9, 10, 13, 31, 32, 34, 47, 60, 62, 92, 126, 127, '.', '[', ']', 'a', 'Z', '0'}
 	for i := range b {
 		if g.pick(3) == 0 {
@@ -224,6 +237,9 @@ func (g *Gen) newVar() string {
 // leaf returns a random non-list item; with vars=true some values are variables
 func (g *Gen) leaf(vars bool) *GItem {
 	f := allFormats[1+g.pick(len(allFormats)-1)]
+	if g.pick(6) == 0 {
+		f = "A"
+	}
 	if f == "A" {
 		if vars && g.pick(3) == 0 {
 			it := &GItem{F: "A", IsVar: true, Var: g.newVar(), Lo: 0, Hi: -1}
